@@ -16,11 +16,13 @@
 use serde_json::{json, Value};
 use std::collections::HashMap;
 use std::sync::Arc;
-use zipora::concurrency::ParallelLoudsTrie;
+use zipora::concurrency::parallel_trie::ParallelTrieOps;
+use zipora::concurrency::{ParallelLoudsTrie, ParallelTrieBuilder};
 use zipora::fsa::simple_implementations::SimpleDawg;
 use zipora::fsa::version_sync::VersionManager;
 use zipora::fsa::{
-    CompressedSparseTrie, ConcurrencyLevel, CritBitTrie, DawgConfig, DoubleArrayTrie, DoubleArrayTrieConfig, FiniteStateAutomaton,
+    CompressedSparseTrie, ConcurrencyLevel, CritBitTrie, DawgConfig, DoubleArrayTrie, DoubleArrayTrieBuilder, DoubleArrayTrieConfig, FiniteStateAutomaton,
+    StatisticsProvider,
     NestedLoudsTrie, NestedTrieDawg, NestingConfig, PatriciaTrie, Trie, TrieStrategy, ZiporaTrie, ZiporaTrieConfig,
 };
 use zv::*;
@@ -67,16 +69,54 @@ trait Subj {
     fn build(&mut self, _ks: &[Key]) -> Option<Result<(), ()>> {
         None
     }
+    /// the builder takes a chunk size / worker count (ParallelTrieBuilder)
+    fn has_chunks(&self) -> bool {
+        false
+    }
+    fn build_with(&mut self, ks: &[Key], _chunk: usize, _workers: usize) -> Option<Result<(), ()>> {
+        self.build(ks)
+    }
+    /// true when a failed build leaves the object itself in an unspecified state (built in place)
+    fn build_in_place(&self) -> bool {
+        false
+    }
+    /// union with a second trie built from `ks` (ParallelTrieOps::merge_tries)
+    fn merge_with(&mut self, _ks: &[Key]) -> Option<Result<(), ()>> {
+        None
+    }
+    /// clear()
+    fn clear(&mut self) -> bool {
+        false
+    }
+    /// a call that must not change the content (shrink_to_fit, refresh_replicas); returns its name
+    fn maintenance(&mut self) -> Option<&'static str> {
+        None
+    }
+    /// every other way the type reports its number of keys (stats().num_keys, statistics(), ...)
+    fn len_twins(&self) -> Vec<usize> {
+        vec![]
+    }
+    fn is_empty_twins(&self) -> Vec<bool> {
+        vec![]
+    }
+    /// node-id view: (lookup_node_id(k).is_some(), restore_string(id))
+    fn node_id(&self, _k: &[u8]) -> Option<(bool, Option<Key>)> {
+        None
+    }
 }
 
 /// ZiporaTrie through its inherent API (`via_trait` = insert through `Trie::insert`)
 struct Zt {
     t: ZiporaTrie,
     via_trait: bool,
+    /// insert through insert_and_get_node_id, and probe lookup_node_id / restore_string
+    node_ids: bool,
 }
 impl Subj for Zt {
     fn insert(&mut self, k: &[u8]) -> Result<(), ()> {
-        if self.via_trait {
+        if self.node_ids {
+            self.t.insert_and_get_node_id(k).map(|_| ()).map_err(|_| ())
+        } else if self.via_trait {
             <ZiporaTrie as Trie>::insert(&mut self.t, k).map(|_| ()).map_err(|_| ())
         } else {
             self.t.insert(k).map_err(|_| ())
@@ -113,6 +153,25 @@ impl Subj for Zt {
     fn longest_prefix(&self, q: &[u8]) -> Option<Option<usize>> {
         Some(self.t.longest_prefix(q))
     }
+    fn maintenance(&mut self) -> Option<&'static str> {
+        self.t.shrink_to_fit();
+        Some("shrink_to_fit")
+    }
+    fn len_twins(&self) -> Vec<usize> {
+        vec![self.t.stats().num_keys, <ZiporaTrie as Trie>::len(&self.t)]
+    }
+    fn is_empty_twins(&self) -> Vec<bool> {
+        vec![self.t.is_empty(), <ZiporaTrie as Trie>::is_empty(&self.t)]
+    }
+    fn node_id(&self, k: &[u8]) -> Option<(bool, Option<Key>)> {
+        if !self.node_ids {
+            return None;
+        }
+        Some(match self.t.lookup_node_id(k) {
+            Some(id) => (true, self.t.restore_string(id)),
+            None => (false, None),
+        })
+    }
 }
 
 /// the legacy wrapper types: insert / contains / lookup / len + automaton view
@@ -148,6 +207,12 @@ macro_rules! wrapper_subject {
             }
             fn longest_prefix(&self, q: &[u8]) -> Option<Option<usize>> {
                 Some(self.t.longest_prefix(q))
+            }
+            fn len_twins(&self) -> Vec<usize> {
+                vec![self.t.stats().num_keys, <$ty as Trie>::len(&self.t)]
+            }
+            fn is_empty_twins(&self) -> Vec<bool> {
+                vec![self.t.is_empty(), <$ty as Trie>::is_empty(&self.t)]
             }
         }
     };
@@ -215,6 +280,110 @@ impl Subj for Dawg {
     fn build(&mut self, ks: &[Key]) -> Option<Result<(), ()>> {
         Some(self.t.build_from_keys(ks.iter()).map_err(|_| ()))
     }
+    fn build_in_place(&self) -> bool {
+        true
+    }
+    fn clear(&mut self) -> bool {
+        self.t.clear();
+        true
+    }
+    fn len_twins(&self) -> Vec<usize> {
+        vec![self.t.statistics().num_keys, StatisticsProvider::stats(&self.t).num_keys]
+    }
+    fn is_empty_twins(&self) -> Vec<bool> {
+        vec![Trie::is_empty(&self.t)]
+    }
+}
+
+/// builders that return a new object: DoubleArrayTrieBuilder, NestedLoudsTrie::builder()
+struct BuiltDarray {
+    t: DoubleArrayTrie,
+    how: &'static str,
+}
+impl Subj for BuiltDarray {
+    fn insert(&mut self, k: &[u8]) -> Result<(), ()> {
+        self.t.insert(k).map_err(|_| ())
+    }
+    fn contains(&self, k: &[u8]) -> bool {
+        self.t.contains(k)
+    }
+    fn len(&self) -> usize {
+        self.t.len()
+    }
+    fn accepts(&self, k: &[u8]) -> Option<bool> {
+        Some(self.t.accepts(k))
+    }
+    fn lookup(&self, k: &[u8]) -> Option<bool> {
+        Some(self.t.lookup(k).is_some())
+    }
+    fn longest_prefix(&self, q: &[u8]) -> Option<Option<usize>> {
+        Some(self.t.longest_prefix(q))
+    }
+    fn has_build(&self) -> bool {
+        true
+    }
+    fn build(&mut self, ks: &[Key]) -> Option<Result<(), ()>> {
+        let mut c = DoubleArrayTrieConfig::default();
+        c.initial_capacity = 2;
+        let r = match self.how {
+            // the caller of build_from_sorted supplies sorted keys: ordering the input is input preparation
+            "sorted" => {
+                let mut v = ks.to_vec();
+                v.sort();
+                DoubleArrayTrieBuilder::new().build_from_sorted(v)
+            }
+            "unsorted" => DoubleArrayTrieBuilder::with_config(c).build_from_unsorted(ks.to_vec()),
+            _ => DoubleArrayTrieBuilder::new_compact().build_from_unsorted(ks.to_vec()),
+        };
+        Some(r.map(|t| self.t = t).map_err(|_| ()))
+    }
+    fn maintenance(&mut self) -> Option<&'static str> {
+        self.t.shrink_to_fit();
+        Some("shrink_to_fit")
+    }
+    fn len_twins(&self) -> Vec<usize> {
+        vec![self.t.stats().num_keys]
+    }
+    fn is_empty_twins(&self) -> Vec<bool> {
+        vec![self.t.is_empty()]
+    }
+}
+
+struct BuiltLouds {
+    t: NestedLoudsTrie<u8>,
+}
+impl Subj for BuiltLouds {
+    fn insert(&mut self, k: &[u8]) -> Result<(), ()> {
+        self.t.insert(k).map_err(|_| ())
+    }
+    fn contains(&self, k: &[u8]) -> bool {
+        self.t.contains(k)
+    }
+    fn len(&self) -> usize {
+        self.t.len()
+    }
+    fn accepts(&self, k: &[u8]) -> Option<bool> {
+        Some(self.t.accepts(k))
+    }
+    fn lookup(&self, k: &[u8]) -> Option<bool> {
+        Some(self.t.lookup(k).is_some())
+    }
+    fn longest_prefix(&self, q: &[u8]) -> Option<Option<usize>> {
+        Some(self.t.longest_prefix(q))
+    }
+    fn has_build(&self) -> bool {
+        true
+    }
+    fn build(&mut self, ks: &[Key]) -> Option<Result<(), ()>> {
+        Some(NestedLoudsTrie::<u8>::builder().build_from_iter(ks.to_vec()).map(|t| self.t = t).map_err(|_| ()))
+    }
+    fn len_twins(&self) -> Vec<usize> {
+        let p = self.t.performance_stats();
+        vec![self.t.stats().num_keys, p.key_count, p.num_keys]
+    }
+    fn is_empty_twins(&self) -> Vec<bool> {
+        vec![self.t.is_empty()]
+    }
 }
 
 struct SDawg {
@@ -237,13 +406,21 @@ struct Par {
     t: ParallelLoudsTrie,
     rt: tokio::runtime::Runtime,
     batch: bool,
+    /// how `build` constructs the object: "" (not offered), "builder" (ParallelTrieBuilder), "from_trie"
+    how: &'static str,
+    /// contains() through parallel_process
+    process: bool,
 }
 impl Subj for Par {
     fn insert(&mut self, k: &[u8]) -> Result<(), ()> {
         self.rt.block_on(self.t.insert(k)).map(|_| ()).map_err(|_| ())
     }
     fn contains(&self, k: &[u8]) -> bool {
-        if self.batch {
+        if self.process {
+            let key = k.to_vec();
+            let ops = vec![move |t: &ZiporaTrie| -> zipora::error::Result<bool> { Ok(t.contains(&key)) }];
+            self.rt.block_on(self.t.parallel_process(ops)).into_iter().next().and_then(|r| r.ok()).unwrap_or(false)
+        } else if self.batch {
             self.rt.block_on(self.t.parallel_contains(vec![k.to_vec()])).first().copied().unwrap_or(false)
         } else {
             self.rt.block_on(self.t.contains(k))
@@ -260,6 +437,61 @@ impl Subj for Par {
     }
     fn insert_all(&mut self, ks: &[Key]) -> Option<Result<(), ()>> {
         Some(self.rt.block_on(self.t.bulk_insert(ks.to_vec())).map(|_| ()).map_err(|_| ()))
+    }
+    fn has_build(&self) -> bool {
+        !self.how.is_empty()
+    }
+    fn has_chunks(&self) -> bool {
+        self.how == "builder"
+    }
+    fn build(&mut self, ks: &[Key]) -> Option<Result<(), ()>> {
+        self.build_with(ks, 0, 0)
+    }
+    /// chunk = 0: the builder's default chunk size (10 000); workers = 0: default
+    fn build_with(&mut self, ks: &[Key], chunk: usize, workers: usize) -> Option<Result<(), ()>> {
+        match self.how {
+            "builder" => {
+                let mut b = ParallelTrieBuilder::new();
+                if chunk > 0 {
+                    b = b.chunk_size(chunk);
+                }
+                if workers > 0 {
+                    b = b.max_workers(workers);
+                }
+                Some(self.rt.block_on(b.build_louds_trie(ks.to_vec())).map(|t| self.t = t).map_err(|_| ()))
+            }
+            "from_trie" => {
+                let mut z = ZiporaTrie::new();
+                for k in ks {
+                    if z.insert(k).is_err() {
+                        return Some(Err(()));
+                    }
+                }
+                self.t = ParallelLoudsTrie::from_trie(z);
+                Some(Ok(()))
+            }
+            _ => None,
+        }
+    }
+    fn merge_with(&mut self, ks: &[Key]) -> Option<Result<(), ()>> {
+        let other = ParallelLoudsTrie::new();
+        if self.rt.block_on(other.bulk_insert(ks.to_vec())).is_err() {
+            return Some(Err(()));
+        }
+        let mine = std::mem::replace(&mut self.t, ParallelLoudsTrie::new());
+        // on Err both inputs are consumed: the subject continues with the fresh empty trie, which the
+        // driver treats like a failed in-place build (the run ends)
+        Some(self.rt.block_on(ParallelTrieOps::merge_tries(vec![mine, other])).map(|t| self.t = t).map_err(|_| ()))
+    }
+    fn build_in_place(&self) -> bool {
+        true
+    }
+    fn maintenance(&mut self) -> Option<&'static str> {
+        self.rt.block_on(self.t.refresh_replicas()).ok()?;
+        Some("refresh_replicas")
+    }
+    fn is_empty_twins(&self) -> Vec<bool> {
+        vec![self.rt.block_on(self.t.is_empty())]
     }
 }
 
@@ -291,6 +523,19 @@ fn subjects() -> Vec<String> {
         "sdawg:simple",
         "par:parallel_louds",
         "par:parallel_louds_batch_api",
+        "par:parallel_process_api",
+        "par:builder",
+        "par:from_trie",
+        "patricia:node_id_api",
+        "louds:node_id_api",
+        "darray:node_id_api",
+        "darray:builder_sorted",
+        "darray:builder_unsorted",
+        "darray:builder_compact",
+        "louds:builder_iter",
+        "sparse:wrapper_memory_pool",
+        "dawg:memory_efficient",
+        "dawg:performance_optimized",
     ]
     .iter()
     .map(|s| s.to_string())
@@ -313,13 +558,13 @@ fn darray_cfg(cap: usize) -> ZiporaTrieConfig {
 fn make(name: &str) -> Option<Box<dyn Subj>> {
     let (fam, var) = name.split_once(':')?;
     let pool = || zipora::memory::SecureMemoryPool::new(zipora::memory::SecurePoolConfig::small_secure()).ok();
-    let zt = |c: ZiporaTrieConfig, via_trait: bool| -> Box<dyn Subj> { Box::new(Zt { t: ZiporaTrie::with_config(c), via_trait }) };
+    let zt = |c: ZiporaTrieConfig, via_trait: bool| -> Box<dyn Subj> { Box::new(Zt { t: ZiporaTrie::with_config(c), via_trait, node_ids: false }) };
     Some(match (fam, var) {
-        ("patricia", "default") => Box::new(Zt { t: ZiporaTrie::new(), via_trait: false }),
+        ("patricia", "default") => Box::new(Zt { t: ZiporaTrie::new(), via_trait: false, node_ids: false }),
         ("patricia", "default_trait_api") => zt(ZiporaTrieConfig::default(), true),
         ("patricia", "cache_optimized") => zt(ZiporaTrieConfig::cache_optimized(), false),
-        ("patricia", "alias_patricia_trie") => Box::new(Zt { t: PatriciaTrie::new(), via_trait: false }),
-        ("patricia", "alias_critbit_trie") => Box::new(Zt { t: CritBitTrie::new(), via_trait: false }),
+        ("patricia", "alias_patricia_trie") => Box::new(Zt { t: PatriciaTrie::new(), via_trait: false, node_ids: false }),
+        ("patricia", "alias_critbit_trie") => Box::new(Zt { t: CritBitTrie::new(), via_trait: false, node_ids: false }),
         ("patricia", "short_paths") => {
             let mut c = ZiporaTrieConfig::default();
             c.trie_strategy = TrieStrategy::Patricia { max_path_length: 2, compression_threshold: 1, adaptive_compression: false };
@@ -366,11 +611,31 @@ fn make(name: &str) -> Option<Box<dyn Subj>> {
             Box::new(Dawg { t })
         }
         ("sdawg", "simple") => Box::new(SDawg { t: SimpleDawg::new() }),
-        ("par", v @ ("parallel_louds" | "parallel_louds_batch_api")) => Box::new(Par {
+        ("par", v @ ("parallel_louds" | "parallel_louds_batch_api" | "parallel_process_api" | "builder" | "from_trie")) => Box::new(Par {
             t: ParallelLoudsTrie::new(),
             rt: tokio::runtime::Builder::new_current_thread().enable_all().build().ok()?,
-            batch: v == "parallel_louds_batch_api",
+            batch: v == "parallel_louds_batch_api" || v == "builder",
+            how: match v {
+                "builder" => "builder",
+                "from_trie" => "from_trie",
+                _ => "",
+            },
+            process: v == "parallel_process_api",
         }),
+        ("patricia", "node_id_api") => Box::new(Zt { t: ZiporaTrie::new(), via_trait: false, node_ids: true }),
+        ("louds", "node_id_api") => Box::new(Zt { t: ZiporaTrie::with_config(ZiporaTrieConfig::space_optimized()), via_trait: false, node_ids: true }),
+        ("darray", "node_id_api") => Box::new(Zt { t: ZiporaTrie::with_config(darray_cfg(256)), via_trait: false, node_ids: true }),
+        ("darray", "builder_sorted") => Box::new(BuiltDarray { t: DoubleArrayTrieBuilder::new().build_from_sorted(vec![]).ok()?, how: "sorted" }),
+        ("darray", "builder_unsorted") => Box::new(BuiltDarray { t: DoubleArrayTrieBuilder::new().build_from_unsorted(vec![]).ok()?, how: "unsorted" }),
+        ("darray", "builder_compact") => Box::new(BuiltDarray { t: DoubleArrayTrieBuilder::new_compact().build_from_sorted(vec![]).ok()?, how: "compact" }),
+        ("louds", "builder_iter") => Box::new(BuiltLouds { t: NestedLoudsTrie::<u8>::builder().build_from_iter(Vec::<Key>::new()).ok()? }),
+        ("sparse", "wrapper_memory_pool") => Box::new(WSparse { t: CompressedSparseTrie::with_memory_pool(ConcurrencyLevel::SingleThreadStrict, Arc::clone(&pool()?)).ok()?, via_trait: false }),
+        ("dawg", v @ ("memory_efficient" | "performance_optimized")) => {
+            let c = if v == "memory_efficient" { DawgConfig::memory_efficient() } else { DawgConfig::performance_optimized() };
+            let mut t = NestedTrieDawg::with_config(c).ok()?;
+            t.build_from_keys(Vec::<Key>::new()).ok()?;
+            Box::new(Dawg { t })
+        }
         _ => return None,
     })
 }
@@ -415,7 +680,7 @@ impl Ctr {
     }
     /// account for a logged mutating event
     fn note(&mut self, e: &Value, nkeys: usize) {
-        if e["ok"] != json!(true) {
+        if e["ok"] != json!(true) && e["op"] != "clear" {
             return;
         }
         match e["op"].as_str().unwrap_or("") {
@@ -436,6 +701,11 @@ impl Ctr {
                 self.built = true;
                 self.ins_after_build = 0;
             }
+            "clear" => {
+                self.ins_ok = 0;
+                self.built = false;
+                self.ins_after_build = 0;
+            }
             _ => {}
         }
     }
@@ -445,9 +715,10 @@ impl Ctr {
 fn exec(s: &mut Box<dyn Subj>, op: &str, k: &[u8], ks: &[Key], ctr: &Ctr) -> Option<Value> {
     let r = guard(|| -> Option<Value> {
         Some(match op {
+            // "after" = contains(k) right after the call: the semantic trigger of the stub deviations
             "insert" => match s.insert(k) {
-                Ok(()) => json!({"op":"insert","k":kj(k),"ok":true}),
-                Err(()) => json!({"op":"insert","k":kj(k),"ok":false}),
+                Ok(()) => json!({"op":"insert","k":kj(k),"ok":true,"after":s.contains(k)}),
+                Err(()) => json!({"op":"insert","k":kj(k),"ok":false,"after":s.contains(k)}),
             },
             "remove" => match s.remove(k)? {
                 Ok(r) => json!({"op":"remove","k":kj(k),"ok":true,"r":r}),
@@ -461,6 +732,17 @@ fn exec(s: &mut Box<dyn Subj>, op: &str, k: &[u8], ks: &[Key], ctr: &Ctr) -> Opt
                 Ok(()) => json!({"op":"build","keys":listing(ks),"ok":true}),
                 Err(()) => json!({"op":"build","keys":listing(ks),"ok":false}),
             },
+            "merge_with" => match s.merge_with(ks)? {
+                Ok(()) => json!({"op":"insert_all","keys":listing(ks),"ok":true,"via":"merge_tries"}),
+                Err(()) => json!({"op":"insert_all","keys":listing(ks),"ok":false,"via":"merge_tries"}),
+            },
+            "clear" => {
+                if !s.clear() {
+                    return None;
+                }
+                json!({"op":"clear"})
+            }
+            "maintenance" => json!({"op":"maintenance","what":s.maintenance()?}),
             "contains" => json!({"op":"contains","k":kj(k),"r":s.contains(k)}),
             "len" => json!({"op":"len","r":s.len()}),
             "keys" => json!({"op":"keys","r":listing(&s.keys()?)}),
@@ -477,13 +759,22 @@ fn exec(s: &mut Box<dyn Subj>, op: &str, k: &[u8], ks: &[Key], ctr: &Ctr) -> Opt
     }
 }
 
+/// build through a builder with a chunk size / worker count (0 = the builder's default)
+fn exec_build(s: &mut Box<dyn Subj>, ks: &[Key], chunk: usize, workers: usize, ctr: &Ctr) -> Option<Value> {
+    let r = guard(|| s.build_with(ks, chunk, workers).map(|r| json!({"op":"build","keys":listing(ks),"ok":r.is_ok(),"chunk":chunk,"workers":workers})));
+    match r {
+        Ok(x) => x.map(|e| ctr.tag(e)),
+        Err(msg) => Some(json!({"op":"panic","in":"build","msg":msg.chars().take(120).collect::<String>()})),
+    }
+}
+
 /// the full observable projection as up to three batch events (probe / probe_keys / probe_fsa)
 fn probe(s: &Box<dyn Subj>, p: &ProbePlan, ctr: &Ctr) -> Vec<Value> {
     let mut out = vec![];
     let r = guard(|| {
         let c: Vec<bool> = p.universe.iter().map(|k| s.contains(k)).collect();
         let ab: Vec<Value> = p.absent.iter().map(|k| json!([kj(k), s.contains(k)])).collect();
-        json!({"op":"probe","len":s.len(),"contains":c,"absent":ab,"ctr":ctr.j()})
+        json!({"op":"probe","len":s.len(),"len_twins":s.len_twins(),"is_empty":s.is_empty_twins(),"contains":c,"absent":ab,"ctr":ctr.j()})
     });
     match r {
         Ok(e) => out.push(e),
@@ -532,7 +823,24 @@ fn probe(s: &Box<dyn Subj>, p: &ProbePlan, ctr: &Ctr) -> Vec<Value> {
     match r {
         Ok(Some(e)) => out.push(e),
         Ok(None) => {}
-        Err(msg) => out.push(json!({"op":"panic","in":"fsa","msg":msg.chars().take(120).collect::<String>()})),
+        Err(msg) => {
+            out.push(json!({"op":"panic","in":"fsa","msg":msg.chars().take(120).collect::<String>()}));
+            return out;
+        }
+    }
+    // node-id view: lookup_node_id(k) and restore_string of the id, for universe and absent keys
+    let r = guard(|| {
+        let mut ids = vec![];
+        for k in p.universe.iter().chain(p.absent.iter()) {
+            let (found, restored) = s.node_id(k)?;
+            ids.push(json!([kj(k), found, opt(restored.map(|x| kj(&x)))]));
+        }
+        Some(json!({"op":"probe_ids","ids":ids,"ctr":ctr.j()}))
+    });
+    match r {
+        Ok(Some(e)) => out.push(e),
+        Ok(None) => {}
+        Err(msg) => out.push(json!({"op":"panic","in":"ids","msg":msg.chars().take(120).collect::<String>()})),
     }
     out
 }
@@ -665,6 +973,135 @@ fn drive(a: &Args) {
     write_summary(&a.out, &json!({"mode":"drive","events":events,"runs":runs,"files":files,"subjects":per_subject}));
 }
 
+/// Deterministic sweep over the bulk builders: key lists of 0..13 keys (sorted / unsorted with
+/// duplicates) and, for builders that split the input into chunks, every chunk size on both sides of
+/// the key count (1, 2, 3, n-1, n, n+1) with 1 / 2 / 4 workers; each build is followed by a full probe,
+/// then a few inserts, a maintenance call and a merge.  For the chunked builder one run uses the
+/// builder's default chunk size (10 000) with 10 000 and 10 001 keys (thorough tier only).
+/// Returns (events, refusals, probes with members).
+fn builder_sweep(a: &Args, name: &str, tr: &mut Tracer) -> (usize, usize, usize) {
+    let rng0 = Rng::new(a.seed);
+    let (mut nev, mut refused, mut members) = (0usize, 0usize, 0usize);
+    let mut log = |tr: &mut Tracer, e: Value, nev: &mut usize, refused: &mut usize, members: &mut usize| -> bool {
+        let p = is_panic(&e);
+        if e["ok"] == json!(false) {
+            *refused += 1;
+        }
+        if e["op"] == "probe" && e["contains"].as_array().map_or(false, |c| c.iter().any(|x| x == &json!(true))) {
+            *members += 1;
+        }
+        tr.ev(e);
+        *nev += 1;
+        p
+    };
+    let sizes: &[usize] = if a.thorough() { &[0, 1, 2, 3, 4, 5, 7, 8, 9, 13, 21] } else { &[0, 1, 2, 3, 5, 8, 13] };
+    for (li, &n) in sizes.iter().enumerate() {
+        let mut urng = rng0.derive(&format!("sweep-universe/{li}"));
+        let universe = gen_universe(&mut urng, (n + 6).max(12));
+        let plan = plan_for(&mut urng, universe);
+        let mut rng = rng0.derive(&format!("{name}/sweep/{li}"));
+        let mut pool = plan.universe.clone();
+        rng.shuffle(&mut pool);
+        let mut keys: Vec<Key> = pool[..n.min(pool.len())].to_vec();
+        if li % 2 == 0 {
+            keys.sort(); // the documented input of the builders is sorted; the odd lists are not, and repeat a key
+        } else if n >= 2 {
+            keys.push(keys[0].clone());
+        }
+        let mut s = match guard(|| make(name)) {
+            Ok(Some(s)) => s,
+            _ => return (nev, refused, members),
+        };
+        let nk = keys.len();
+        let mut chunks: Vec<usize> = if s.has_chunks() { vec![1, 2, 3, nk.saturating_sub(1), nk, nk + 1] } else { vec![0] };
+        chunks.retain(|&c| c > 0 || !s.has_chunks());
+        chunks.sort();
+        chunks.dedup();
+        tr.reset("byteset", name, reset_cfg(name, &plan, json!({"regime": "sweep", "list": li, "seed": a.seed, "b2": false})));
+        let mut ctr = Ctr::default();
+        let mut dead = false;
+        for (ci, &chunk) in chunks.iter().enumerate() {
+            let workers = if s.has_chunks() { [1usize, 2, 4][(ci + li) % 3] } else { 0 };
+            let e = match exec_build(&mut s, &keys, chunk, workers, &ctr) {
+                Some(e) => e,
+                None => break,
+            };
+            let failed = e["ok"] == json!(false);
+            ctr.note(&e, keys.len());
+            dead |= log(tr, e, &mut nev, &mut refused, &mut members);
+            if dead || (failed && s.build_in_place()) {
+                dead = true;
+                break;
+            }
+            for e in probe(&s, &plan, &ctr) {
+                dead |= log(tr, e, &mut nev, &mut refused, &mut members);
+            }
+            if dead {
+                break;
+            }
+        }
+        // the built object keeps working as a trie
+        let follow: [(&str, usize); 6] = [("insert", 0), ("maintenance", 0), ("insert", 1), ("merge_with", 2), ("insert", 3), ("clear", 0)];
+        for (op, j) in follow {
+            if dead {
+                break;
+            }
+            let k = plan.universe[(j * 5 + li) % plan.universe.len()].clone();
+            let batch: Vec<Key> = if op == "merge_with" { plan.universe.iter().skip(li % 3).step_by(4).cloned().collect() } else { vec![] };
+            let e = match exec(&mut s, op, &k, &batch, &ctr) {
+                Some(e) => e,
+                None => continue,
+            };
+            let broken = op == "merge_with" && e["ok"] == json!(false);
+            ctr.note(&e, batch.len());
+            dead |= log(tr, e, &mut nev, &mut refused, &mut members);
+            if dead || broken {
+                dead = true;
+                break;
+            }
+            for e in probe(&s, &plan, &ctr) {
+                dead |= log(tr, e, &mut nev, &mut refused, &mut members);
+            }
+        }
+        if dead {
+            std::mem::forget(s);
+        }
+    }
+    // the default chunk size: 10 000 keys are one chunk, 10 001 need the merge of two partial tries
+    if guard(|| make(name)).ok().flatten().map_or(false, |s| s.has_chunks()) {
+        // (thorough only: ZiporaTrie::insert recomputes its statistics over all nodes on every call, so the 16
+        // replicas of a 10 000-key trie take minutes to clone)
+        let big: &[usize] = if a.thorough() { &[10_000, 10_001] } else { &[] };
+        for &n in big {
+            // n distinct 3-byte keys in sorted order
+            let keys: Vec<Key> = (0..n).map(|i| vec![(i / 1600) as u8 + 33, ((i / 40) % 40) as u8 + 60, (i % 40) as u8 * 5]).collect();
+            // probes: keys around the chunk boundaries, the ends, and a few non-members
+            let mut universe: Vec<Key> = [0usize, 1, 4999, 9998, 9999, 10_000, 10_001 % n, n / 2, n - 2, n - 1].iter().filter(|&&i| i < n).map(|&i| keys[i].clone()).collect();
+            universe.dedup();
+            universe.extend([vec![], vec![33], vec![33, 60], vec![33, 60, 1], vec![200, 1, 1]]);
+            let plan = ProbePlan { universe, absent: vec![vec![33, 60, 0, 0], vec![32]], prefixes: vec![vec![33, 60], vec![39], vec![255]], queries: vec![vec![33, 60, 5, 9], vec![39, 99, 195, 1], vec![33]] };
+            let mut s = match guard(|| make(name)) {
+                Ok(Some(s)) => s,
+                _ => break,
+            };
+            tr.reset("byteset", name, reset_cfg(name, &plan, json!({"regime": "sweep-default-chunk", "n": n, "seed": a.seed, "b2": false})));
+            let ctr0 = Ctr::default();
+            let mut ctr = ctr0;
+            if let Some(e) = exec_build(&mut s, &keys, 0, 0, &ctr) {
+                let ok = e["ok"] == json!(true);
+                ctr.note(&e, keys.len());
+                let dead = log(tr, e, &mut nev, &mut refused, &mut members);
+                if ok && !dead {
+                    for e in probe(&s, &plan, &ctr) {
+                        log(tr, e, &mut nev, &mut refused, &mut members);
+                    }
+                }
+            }
+        }
+    }
+    (nev, refused, members)
+}
+
 /// one subject = one tracer (own files): a rejection re-validates only that subject in KF mode
 fn drive_subject(a: &Args, name: &str, idx: usize) -> (Value, usize, usize, Vec<String>) {
     let mut tr = Tracer::new(&a.out, &format!("bset-{idx:03}"));
@@ -676,6 +1113,12 @@ fn drive_subject(a: &Args, name: &str, idx: usize) -> (Value, usize, usize, Vec<
     {
         let (mut nev, mut panics, mut refused, mut ins_total, mut rem_true, mut members_seen) = (0usize, 0usize, 0usize, 0usize, 0usize, 0usize);
         let mut constructed = true;
+        if guard(|| make(name)).ok().flatten().map_or(false, |s| s.has_build()) {
+            let (e, r, m) = builder_sweep(a, name, &mut tr);
+            nev += e;
+            refused += r;
+            members_seen += m;
+        }
         for (ri, &(uni, steps, runs)) in regimes.iter().enumerate() {
             // the DAWG is cheap to run and its build / insert interplay needs many small histories
             let runs = if ri == 0 && fam_of(name) == "dawg" { runs * 4 } else { runs };
@@ -710,7 +1153,9 @@ fn drive_subject(a: &Args, name: &str, idx: usize) -> (Value, usize, usize, Vec<
                     let op = match c {
                         // the DAWG is meant to be built from a key list: do that often
                         0..=24 if s.has_build() && step % 2 == 0 => "build",
-                        0..=49 => "insert",
+                        0..=45 => "insert",
+                        46..=48 => "maintenance",
+                        49 => "clear",
                         50..=79 => {
                             if has_remove {
                                 "remove"
@@ -725,7 +1170,13 @@ fn drive_subject(a: &Args, name: &str, idx: usize) -> (Value, usize, usize, Vec<
                         90..=91 => "accepts",
                         92..=93 => "lookup",
                         94..=96 => "longest_prefix",
-                        97 => "insert_all",
+                        97 => {
+                            if step % 2 == 0 {
+                                "insert_all"
+                            } else {
+                                "merge_with"
+                            }
+                        }
                         _ => {
                             if step < 3 {
                                 "build"
@@ -734,12 +1185,14 @@ fn drive_subject(a: &Args, name: &str, idx: usize) -> (Value, usize, usize, Vec<
                             }
                         }
                     };
-                    let batch: Vec<Key> = if op == "insert_all" || op == "build" { (0..rng.range(0, if op == "build" { 12 } else { 5 })).map(|_| rng.pick(&plan.universe).clone()).collect() } else { vec![] };
+                    let batch: Vec<Key> = if op == "insert_all" || op == "build" || op == "merge_with" { (0..rng.range(0, if op == "build" { 12 } else { 5 })).map(|_| rng.pick(&plan.universe).clone()).collect() } else { vec![] };
                     let e = match exec(&mut s, op, &k, &batch, &ctr) {
                         Some(e) => e,
                         None => continue,
                     };
-                    let mutating = matches!(op, "insert" | "remove" | "insert_all" | "build");
+                    let mutating = matches!(op, "insert" | "remove" | "insert_all" | "build" | "merge_with" | "clear" | "maintenance");
+                    // a failed build / merge that works in place leaves the object unspecified: the run ends
+                    let broken = matches!(op, "build" | "merge_with") && e["ok"] == json!(false) && s.build_in_place();
                     if is_panic(&e) {
                         panics += 1;
                         dead = true;
@@ -756,6 +1209,9 @@ fn drive_subject(a: &Args, name: &str, idx: usize) -> (Value, usize, usize, Vec<
                     }
                     tr.ev(e);
                     nev += 1;
+                    if broken {
+                        break;
+                    }
                     if mutating && !dead {
                         for e in probe(&s, &plan, &ctr) {
                             if is_panic(&e) {
